@@ -108,7 +108,10 @@ func (c *Ctx) classifyStreamID(e *EmitSite) (string, bool) {
 			return "captured value identical to the table key / id field of the stream being created", true
 		}
 	}
-	// (c) the id of the frame just received (rejection reply)
+	// (c) the id of the frame just received (rejection reply), possibly handed to a helper with one call site
+	if arg, _ := w.throughSoleCallSite(v); arg != nil {
+		v = origin(arg)
+	}
 	if fr, base, ok := loadedField(v); ok && fr.Field == "StreamId" {
 		if ex, ok := origin(base).(*ssa.Extract); ok {
 			if call, ok := ex.Tuple.(*ssa.Call); ok {
@@ -399,7 +402,7 @@ func ruleContiguity(c *Ctx, rule string) {
 		rn := recvNamed(e.Fn)
 		if rn == nil || (a.CS != nil && rn.Obj() != a.CS.Obj() && a.SS != nil && rn.Obj() != a.SS.Obj()) {
 			// rejection reply from the serve loop: the stream never existed, nothing to interleave with
-			if topFn(e.Fn) == a.ServerLoop {
+			if c.isRejectionEmit(e) {
 				c.exception(rule, emitKey(w, e)+": ordered with data chunks", w.At(e.Alloc), "rejection reply for a stream that was never created: no data frames of that stream exist to interleave with")
 				continue
 			}
@@ -987,12 +990,18 @@ func ruleRejectClose(c *Ctx, rule string) {
 	}
 	n := 0
 	for _, e := range c.realEmitSites() {
-		if e.Kind != "ServerToClient_CloseStream" || topFn(e.Fn) != a.ServerLoop || e.Send == nil {
+		if e.Kind != "ServerToClient_CloseStream" || !c.isRejectionEmit(e) || e.Send == nil {
 			continue
 		}
 		n++
 		key := emitKey(w, e)
 		pt := c.spawnPointOf(e)
+		if e.Fn.Parent() == nil {
+			// helper method: its single call site in the serve loop
+			for _, s := range w.callSitesOf(e.Fn) {
+				pt = s
+			}
+		}
 		if pt == nil {
 			c.fail(rule, key+": spawn", w.At(e.Alloc), "cannot find spawn point")
 			continue
@@ -1035,14 +1044,44 @@ func ruleRejectClose(c *Ctx, rule string) {
 		c.check(sends == 1 && !inLoop(e.Send.Block()), rule, key+": exactly one frame", w.At(e.Send), "one send, not in a loop", fmt.Sprintf("%d sends in the rejection goroutine", sends))
 		st := e.Payload["CloseStream.Status"]
 		good := false
-		if st != nil {
-			d := desc(st)
-			good = strings.Contains(d, "status.FromError(") && strings.Contains(d, "createStream(") || strings.Contains(d, "status.FromError("+desc(extractOf(createCall, 1)))
+		if errArg, ok := statusProtoOfError(st); ok {
+			ev := origin(errArg)
+			if arg, _ := w.throughSoleCallSite(ev); arg != nil {
+				ev = origin(arg)
+			}
+			if ex, isEx := ev.(*ssa.Extract); isEx && ex.Tuple == ssa.Value(createCall) && ex.Index == 1 {
+				good = true
+			}
 		}
 		c.check(good, rule, key+": carries the rejection status", w.At(e.Alloc), "Status = "+desc(st), "the close_stream Status is "+desc(st)+", expected status.FromError(<creation error>).Proto()")
 		// every iteration that rejects reaches the spawn: the true/non-nil edge leads to pt without bypass
 	}
 	c.floor(rule, n, 1, "rejection close_stream emit sites")
+}
+
+// isRejectionEmit: a close_stream emitted from the serve loop's own closure, or from a helper whose only
+// call sites are in the serve loop (the stream was never created).
+func (c *Ctx) isRejectionEmit(e *EmitSite) bool {
+	a := c.W.Anchors()
+	if a.ServerLoop == nil {
+		return false
+	}
+	if topFn(e.Fn) == a.ServerLoop {
+		return true
+	}
+	if e.Fn.Parent() != nil || e.Fn == a.ServerFinish || topFn(e.Fn) == a.ServerFinish {
+		return false
+	}
+	sites := c.W.callSitesOf(e.Fn)
+	if len(sites) == 0 {
+		return false
+	}
+	for _, s := range sites {
+		if s.Parent() != a.ServerLoop {
+			return false
+		}
+	}
+	return true
 }
 
 func extractOf(call *ssa.Call, idx int) ssa.Value {
